@@ -2,7 +2,7 @@
 \* recalc takes the magnitude at every use (braking_point.rs:91, :100, :131, :152-153)
 SPECIFICATION Spec
 CONSTANTS
-  Variant = "fixed"
+  Variant = "catchup"
   E = 0
   VPerO = 1
   MaxZ = 4
